@@ -269,6 +269,30 @@ def run(tier, seed, rng):
         if probs:
             failures.append(Failure(what='; '.join(probs[:3])[:500], case=case, impl=probs[:8], model='Frame.step_env', oracle_rejects=True,
                                     correspondence=CORRESPONDENCES[0], theorems=THEOREMS, oracle='finite gradients in, finite gradients out (property text)'))
+    for k in range(4 if tier == 'quick' else 16):
+        torch.manual_seed(seed + 6000 + k)
+        method = rng.choice(['eigen', 'inverse'])
+        model = torch.nn.Sequential(torch.nn.Linear(6, 5), torch.nn.Tanh(), torch.nn.Linear(5, 3)).half()
+        case = {'kind': 'fp16-params-clip', 'method': method, 'seed': seed + 6000 + k}
+        probs = []
+        try:
+            ls = 2.0 ** 16                                   # a static loss scale (GradScaler's default initial scale)
+            p = KFACPreconditioner(model, compute_method=method, factor_dtype=torch.float32, inv_dtype=torch.float32, lr=0.1, grad_scaler=lambda: ls)
+            for st in range(2):
+                model.zero_grad()
+                x = (torch.rand(32, 6) * 4 + 1).half()
+                (torch.nn.functional.mse_loss(model(x).float(), torch.randn(32, 3)) * ls).backward()
+                fin_in = all(bool(torch.isfinite(q.grad).all()) for q in model.parameters())
+                p.step()
+                for nme, q in model.named_parameters():
+                    if fin_in and not bool(torch.isfinite(q.grad).all()):
+                        probs.append(f'step {st}: gradient of {nme} (float16 parameters, loss scale 2^16, clipping on) is not finite after step() although every input was')
+        except Exception as e:  # noqa: BLE001
+            probs.append(f'raised {type(e).__name__}: {e}'[:300])
+        cov.add(case, True, sample_cap=1); cov.count('kind', 'fp16-params-clip')
+        if probs:
+            failures.append(Failure(what='; '.join(probs[:3])[:500], case=case, impl=probs[:8], model='Frame.step_env', oracle_rejects=True,
+                                    correspondence=CORRESPONDENCES[0], theorems=THEOREMS, oracle='finite gradients in, finite gradients out (property text)'))
     # ---- outputs / autograd gradients with and without K-FAC under one seed, stochastic layer after a registered conv, small and LARGE
     # feature maps (> 2**17 patches per pass) ----
     for k, (B, HW) in enumerate([(4, 16), (8, 144)] if tier == 'quick' else [(4, 16), (8, 144), (2, 300), (16, 96)]):
